@@ -620,6 +620,45 @@ def check_transitions(ctx, st, entry, text, origin, spec):
                         {'kind': 'accepted-transition-lost', 'form': form})
 
 
+def check_tasks_kept(ctx, st, entry, text, origin, spec):
+    """Statement "an accepted definition … is the same definition (tasks, …)": every key of the `tasks` section of
+    an accepted workflow is a task of the specification.  Model side (Tie B of `specListMembers`): the keys
+    `BaseSpecList.__init__` instantiates, through the driver."""
+    from harness import schema_stream as S
+    try:
+        d = st['sp'].parse_yaml(text)
+    except Exception:
+        return
+    if not isinstance(d, dict):
+        return
+    if entry == 'parse.wf':
+        wfs = [(w.get_name(), w, d.get(w.get_name())) for w in spec.get_workflows()]
+    elif entry == 'parse.wb' and spec.get_workflows():
+        src = d.get('workflows') if isinstance(d.get('workflows'), dict) else {}
+        wfs = [(w.get_name(), w, src.get(w.get_name())) for w in spec.get_workflows()]
+    else:
+        return
+    for wname, w, src in wfs:
+        if not isinstance(src, dict) or not isinstance(src.get('tasks'), dict):
+            continue
+        written = [k for k in src['tasks']]
+        got = list(w.get_tasks().item_keys())
+        try:
+            model = ctx.driver().call('schema.members', {'doc': S.enc(src['tasks'])})
+        except S.Untransportable:
+            continue
+        ctx.evaluated('taskskept', [text_hash(text), wname], nontrivial=len(written) > 1)
+        if model != got:
+            ctx.disagree('taskskept', {'text': text, 'workflow': wname}, model, got)
+        lost = [k for k in written if k not in got]
+        if lost:
+            ctx.count('taskskept', 'lost:%s' % ','.join(map(str, lost)))
+            ctx.violation('accepted workflow %r: the task(s) %r written in `tasks` are not part of the specification '
+                          '(never validated, never run); tasks of the specification: %r' % (wname, lost, got),
+                          {'kind': 'doc', 'entry': entry, 'text': text, 'origin': origin},
+                          {'kind': 'accepted-task-lost', 'names': sorted(map(str, lost))})
+
+
 def check_no_alias_sharing(ctx, st, text, origin):
     """mechanism "YAML loaded with a hardened loader (no anchors/aliases)": the loaded document is a tree, no
     container object is reachable through two paths (which is what `*alias` / `<<: *alias` expansion produces)."""
@@ -685,6 +724,7 @@ def run_doc(ctx, st, text, origin, limit, do_services=True, do_stability=True):
         ctx.count('lang', 'accepted:' + entry)
         check_expr_fields(ctx, st, entry, text, origin)
         check_transitions(ctx, st, entry, text, origin, spec)
+        check_tasks_kept(ctx, st, entry, text, origin, spec)
         if not do_stability:
             continue
         kind, det, _ = E.guarded(lambda: stability(ctx, st, entry, text, origin, spec, members_of(st, entry, spec)), limit * 4)
